@@ -35,7 +35,7 @@ def c18(thorough):
                     k = min(len(src), len(C))
                     exp_t = [x for x, c in zip(src[:k], C[:k]) if c]
                     exp_f = [x for x, c in zip(src[:k], C[:k]) if not c]
-                    for kind in ('list', 'iter'):
+                    for kind in ('list', 'iter', 'reiter'):
                         for order in sorted(interleavings(len(exp_t), len(exp_f), 12 if not thorough else 40)):
                             runs += 1
                             pulled = []
@@ -44,7 +44,10 @@ def c18(thorough):
                                 for i, x in enumerate(src):
                                     pulled.append(i)
                                     yield x
-                            s = gen() if kind == 'iter' else list(src)
+                            class Logged:
+                                """a container that is not its own iterator: every pass over it pulls (and logs) again"""
+                                __iter__ = staticmethod(gen)
+                            s = gen() if kind == 'iter' else Logged() if kind == 'reiter' else list(src)
                             c = iter(C) if kind == 'iter' else list(C)
                             try:
                                 a, b = split(s, c)
@@ -133,6 +136,24 @@ def c18(thorough):
         runs += 1
         if r is not None or left:
             probs.append('exhaust(iter(%r)): returned %r, left unconsumed %r' % (vals, r, left))
+    # a lazy iterable that is sized (a progress wrapper, a view): exhaust still has to run it dry
+    class SizedLazy:
+        def __init__(self, n):
+            self.n, self.log = n, []
+
+        def __len__(self):
+            return self.n
+
+        def __iter__(self):
+            for i in range(self.n):
+                self.log.append(i)
+                yield i
+    for n in (0, 1, 4):
+        sl = SizedLazy(n)
+        runs += 1
+        r = exhaust(sl)
+        if r is not None or sl.log != list(range(n)):
+            probs.append('exhaust(<sized lazy iterable of %d>): returned %r, pulled %r' % (n, r, sl.log))
     # predicates that are callable AND look iterable (types used as predicates)
     for pred, data in ((list, [[], [1], '', 'ab', ()]), (str, ['', 'a', 0, None]), (tuple, [(), (1,), [2], []]),
                        (dict, [{}, {'a': 1}])):
@@ -251,6 +272,22 @@ def c19(thorough):
                     pass
                 except BaseException as e:  # noqa
                     probs.append('string without separator raised %r' % (e,))
+    # a string is a string whatever its exact class (str mixin enums, markup-safe strings, ...)
+    class Tagged(str):
+        pass
+    for item, exp in ((Tagged('a=1'), {'a': 1}), (Tagged('ab'), ValueError), (Tagged('k=[1, 2]'), {'k': [1, 2]}),
+                      (('k', Tagged('(1, 2)')), {'k': (1, 2)}), (('k', Tagged('word')), {'k': 'word'})):
+        runs += 1
+        try:
+            got = parse_to_dict([item])
+        except ValueError:
+            got = ValueError
+        except BaseException as e:  # noqa
+            got = e
+        if got != exp:
+            probs.append('parse_to_dict([%s(%r)]) -> %r, model %r' % (type(item).__name__, item, got, exp))
+    if parse_to_dict([(Tagged('1'), 'v')], parse_keys=True) != {1: 'v'}:
+        probs.append('a str-subclass key was not parsed with parse_keys=True')
     # default parser is literal_eval; nothing else is applied to the text
     import inspect
     if inspect.signature(parse_to_dict).parameters['parse'].default is not ast.literal_eval:
